@@ -17,6 +17,7 @@ inductive St where
   | kin (k : KSt)
   | cut (r : RSt)
   | ecut
+  | ckrace
   | kread (k : KRd)
   | job (j : JSt) (deployed : Bool)
   | misc
@@ -63,12 +64,13 @@ def showCalls (runners : Nat) (cs : List Call) : String :=
   if cs.isEmpty then "-" else joinWith " | " (cs.map (showCall runners))
 
 /-- where the model of the code as it is and the ideal splitter differ, the line names the recorded defect whose
-situation the trace is in: a restore that lost withheld shards (D16c, `tainted`) or dropped a reported position (D52,
-`dropped`); any other difference is tagged with an id that is not a recorded finding and is therefore reported -/
+situation the trace is in: a restore that lost withheld shards (D16c, `tainted`); any other difference (also a
+restore that drops a reported position again: D52 is repaired) is tagged with an id that is not a recorded finding and
+is therefore reported -/
 def both (impl : Sp) (a b : String) : String :=
   if a == b then a
   else if impl.tainted then s!"{a} #spec {b} #kf D16c"
-  else if impl.dropped then s!"{a} #spec {b} #kf D52"
+  else if impl.dropped then s!"{a} #spec {b} #kf D52-REGRESSION"
   else s!"{a} #spec {b} #kf UNEXPLAINED"
 
 def parentsOf (s : Sp) (i : Nat) : List Nat := (s.stream[i]?.map (·.parents)).getD []
@@ -98,9 +100,9 @@ def showCkpt (s : Sp) : String :=
     let last := if c.tr.next == 0 then "-" else toString (c.tr.next - 1)
     s!"last={last} assigned={joinWith "," (ids.map toString)}"
 
-/-- does the code under test resume shards whose reported position the splitter had dropped?
-`false` = the code as it is (D52 open); set to `true` when `fixes/D52.diff` is applied. -/
-def codeReadd : Bool := false
+/-- the code under test resumes shards whose reported position the splitter had dropped (D52 repaired, /repo c7455f1:
+`resumeFinishedShards`); `false` was the old rule (`C16.reported_positions_resumed_counterexample`). -/
+def codeReadd : Bool := true
 
 def kstep (k : KSt) (a : Act) (withLost : Bool := true) : KSt × String :=
   let (i', ci) := Splits.step false codeReadd k.impl a
@@ -239,6 +241,9 @@ def step (st : St) (ws : List String) : St × String :=
   | .ecut => (.ecut, match ws with   -- free-running real reader: every op evaluates C16.cursor_matches_cut, spec `ok`
       | ["assign", _] | ["pause", _] | ["barrier", _] => "ok"
       | _ => "bad-op")
+  | .ckrace => (.ckrace, match ws with   -- spec: the checkpoint is one consistent view (C16.checkpoint_is_one_locked_read)
+      | ["stress", _, _] => "ok"
+      | _ => "bad-op")
   | .kread k => let (k', o) := stepKread k ws; (.kread k', o)
   | .job j d => let (j', o) := stepJob j d ws; (.job j' (d || ws == ["deploy"]), o)
   | .misc => (.misc, stepMisc ws)
@@ -251,6 +256,7 @@ def initSt (header : String) : St :=
   | "M" :: "C16" :: "cut" :: _ => .cut {}
   | "M" :: "C16" :: "ecut" :: _ => .ecut
   | "M" :: "C16" :: "job" :: _ => .job {} false
+  | "M" :: "C16" :: "ckrace" :: _ => .ckrace
   | ["M", "C16", "kread", _, _, _, _, limit] => .kread { limit := natOr limit }
   | _ => .misc
 
